@@ -233,6 +233,11 @@ class RpcClient:
         resp_type: t.Type[T],
         encrypt_offsets: t.Optional[tuple[int, int]] = None,
     ) -> T:
+        if self._auth and encrypt_offsets and not pdu_header.auth_len and pdu_header.packet_type == PacketType.RESPONSE:
+            # The request was sealed, a response without a security trailer
+            # did not come from the peer that holds the session key.
+            raise ValueError("Received RPC response without a security trailer for a sealed request")
+
         if self._auth and encrypt_offsets and pdu_header.auth_len:
             view = memoryview(response)
 
